@@ -139,21 +139,29 @@ def split_junction(g, rng: random.Random) -> None:
     g.add_edge(new, u, length=4.0, speed_kmph=15.0)
 
 
-def osm_from_graph(g, h3res: int = 15):
+def drop_speed_tags(g, rng: random.Random, share: float) -> None:
+    """some links carry no speed (as in raw OSM extracts): the scenario's network.default_speed_kmph applies to them"""
+    for u, v, k, d in list(g.edges(keys=True, data=True)):
+        if rng.random() < share:
+            d.pop("speed_kmph", None)
+
+
+def osm_from_graph(g, h3res: int = 15, default_speed: float = 40.0):
     import logging
 
     logging.disable(logging.CRITICAL)
     from nrel.hive.model.roadnetwork.osm.osm_roadnetwork import OSMRoadNetwork
 
-    return OSMRoadNetwork(g, sim_h3_resolution=h3res)
+    return OSMRoadNetwork(g, sim_h3_resolution=h3res, default_speed_kmph=default_speed)
 
 
 class NetView:
     """index of an OSMRoadNetwork for the harness"""
 
-    def __init__(self, rn, gid: str, ref, from_inputs: bool = False):
+    def __init__(self, rn, gid: str, ref, from_inputs: bool = False, default_speed: float = 40.0):
         self.rn, self.gid, self.ref = rn, gid, ref
         self.from_inputs = from_inputs
+        self.default_speed = default_speed        # what the scenario configures for links that carry no speed
         self.nodes = sorted(ref.nodes())
         self.ix = {n: i + 1 for i, n in enumerate(self.nodes)}
         self.links = sorted({f"{u}-{v}" for u, v in ref.edges()})
@@ -166,13 +174,13 @@ class NetView:
         that comes without it (the generated ones) the time implied by the INPUT length and speed, independently of what
         the network object stored"""
         if self.from_inputs:
-            return int(round(float(d["length"]) / 1000.0 / float(d["speed_kmph"]) * 3600_000))
+            return int(round(float(d["length"]) / 1000.0 / float(d.get("speed_kmph") or self.default_speed) * 3600_000))
         return int(round(float(d["travel_time"]) * 1000))
 
     def graph_line(self, fw: bool) -> Dict[str, Any]:
         # node positions are quantised to res-15 cells (about a metre): "fastest" is claimed up to the time it takes to
         # drive two metres at the graph's top speed
-        vmax = max(float(d["speed_kmph"]) for _, _, d in self.ref.edges(data=True))
+        vmax = max(float(d.get("speed_kmph") or self.default_speed) for _, _, d in self.ref.edges(data=True))
         slack = int(2.0 / (vmax / 3.6) * 1000) + 1
         return {"k": "graph", "id": self.gid, "n": len(self.nodes), "edges": self.edges, "fw": fw, "slack": slack}
 
@@ -330,9 +338,11 @@ def write_records(path: Path, job: Dict[str, Any]) -> Dict[str, Any]:
                     add_parallel_links(g, rng, max(1, job["nodes"] // 4))
                 if job.get("split_junction"):
                     split_junction(g, rng)
+                if job.get("untagged"):
+                    drop_speed_tags(g, rng, job["untagged"])
             ref = copy_graph(g)
-            rn = osm_from_graph(g, job.get("h3res", 15))
-            view = NetView(rn, job["id"], ref, from_inputs=True)
+            rn = osm_from_graph(g, job.get("h3res", 15), job.get("default_speed", 40.0))
+            view = NetView(rn, job["id"], ref, from_inputs=True, default_speed=job.get("default_speed", 40.0))
             fw = len(view.nodes) <= 14
         w(view.graph_line(fw))
         pairs = all_link_pairs(view, rng) if job.get("all_pairs") else pairs_for(view, rng, job["n"])
